@@ -10,6 +10,7 @@ import (
 	"reflect"
 	"strings"
 	"sync"
+	"time"
 
 	"github.com/NethermindEth/juno/core/felt"
 	"github.com/NethermindEth/juno/jsonrpc"
@@ -154,6 +155,13 @@ func (w *World) handler(ms MethodSpec) any {
 		if ctx {
 			if args[0].IsNil() {
 				problems = append(problems, name+": nil context")
+			} else if beh == "waitctx" {
+				// a slow handler: it outlasts the request deadline, then answers like echo
+				select {
+				case <-args[0].Interface().(context.Context).Done():
+				case <-time.After(15 * time.Second):
+					problems = append(problems, name+": the request context was never cancelled")
+				}
 			}
 			args = args[1:]
 		}
@@ -188,7 +196,7 @@ func (w *World) handler(ms MethodSpec) any {
 			res.Set(reflect.ValueOf(raws))
 		}
 		switch beh {
-		case "echo":
+		case "echo", "waitctx":
 			echo()
 		case "fail":
 			e := &jsonrpc.Error{Code: 44, Message: "Expected Error"}
